@@ -606,6 +606,50 @@ ORDER_EXPECT = {
 }
 
 
+def _uncompared_reason(b, path):
+    """Why a path of add_alt/add_alt_err may store without comparing positions: 'none-pending' (switch on the discriminant of the
+    value taken from errors.alt, value 0) or 'zero-sized' (size_of::<E::Error>() == 0 holds); None if neither fact is on the path."""
+    pp_ = mirq.PathProv(b, path)
+    for bb, idx in path:
+        t = b["blocks"][bb]["term"]
+        if t["k"] != "switch" or idx in (None, "loop"):
+            continue
+        op = mirq.operand_place(t["op"])
+        if op is None:
+            continue
+        ch = mirq.switch_choice(b, bb, idx)
+        for x in pp_.of_place(op):
+            if x[0] == "discr" and ch == 0:
+                src = fmt_roots(x[1])
+                if "errors.alt" in src:
+                    return "none-pending"
+            if x[0] == "bin" and x[1] in ("Eq", "Ne"):
+                holds = (ch != 0) if x[1] == "Eq" else (ch == 0)
+                sides = [fmt_roots(x[2]), fmt_roots(x[3])]
+                if holds and any(_int_lit(z) == 0 for z in sides) and any(z == "size_of()" for z in sides) and _size_of_error(b, path):
+                    return "zero-sized"
+    return None
+
+
+def _int_lit(z):
+    m = re.match(r"^(?:const )?(\d+)_(?:usize|u\d+|i\d+|isize)$", z.strip())
+    return int(m.group(1)) if m else None
+
+
+def _size_of_error(b, path):
+    """The size_of call on the path is instantiated with the parser's error type (E::Error), nothing else."""
+    n = 0
+    for bb, _ in path:
+        t = b["blocks"][bb]["term"]
+        f = callee_of(t) if t["k"] == "call" else None
+        if f is not None and f["name"] == "size_of" and f.get("krate") in ("core", "std"):
+            n += 1
+            a = f.get("args") or []
+            if len(a) != 1 or not re.match(r"^<E as extra::ParserExtra<'_, I>>::Error$", a[0]):
+                return False
+    return n >= 1
+
+
 def rule_order_arms(facts):
     """The pending primary error is replaced by a later failure, merged with an equal-positioned one, kept otherwise."""
     from rules_hooks import is_field
@@ -632,6 +676,8 @@ def rule_order_arms(facts):
         # discriminant locals of the cmp result and of the taken Option
         disc_cmp = {s["place"]["l"] for _, _, s in assigns(b) if s["rv"]["k"] == "discr" and s["rv"]["place"]["l"] == cmp_dest}
         seen = {}
+        nocmp = {}
+        flagged = set()
         for path in mirq.paths(b):
             arm = None
             took_option = None
@@ -645,6 +691,18 @@ def rule_order_arms(facts):
             has_cmp = any(bb == cmps[0][0] for bb, _ in path)
             if not has_cmp:
                 arm = "None"
+                # a path that stores without comparing positions is legitimate only when nothing is pending, or when the
+                # error type is zero-sized (nothing to prioritise or merge): find the fact that justifies it
+                why = _uncompared_reason(b, path)
+                r.ob(why is not None)
+                nocmp.setdefault(why, 0)
+                nocmp[why] += 1
+                if why is None and q not in flagged:
+                    flagged.add(q)
+                    r.violations.append(V("ORDER-ARMS", q, "store without comparison",
+                                          "%s overwrites errors.alt on a path that neither compares the two positions nor is guarded by "
+                                          "`no error pending` (None arm of the taken slot) or `size_of::<E::Error>() == 0`: the furthest / "
+                                          "merged error is lost for every error type that reaches this path" % q.split("::")[-1], *loc(b)))
             pp_ = mirq.PathProv(b, path)
             w = None
             for bb, _ in path:
@@ -668,6 +726,8 @@ def rule_order_arms(facts):
     r.explanation = ("add_alt / add_alt_err: per Ordering arm of cmp(pending.pos, new.pos) (operand order checked) the value stored in errors.alt "
                      "is: later new error -> replaces (at new position), equal -> merged at the pending position, earlier -> pending kept, "
                      "no pending -> new error; decided by path-sensitive provenance of the stored value")
+    r.explanation += ("; a path that stores without comparing is justified only by `no error pending` or `size_of::<E::Error>() == 0` "
+                      "(instantiated with the parser's error type)")
     r.nontrivial = 10
     return r
 
